@@ -28,7 +28,7 @@ func (Engine) Info(prop string) core.Info {
 	}
 	return core.Info{
 		Level: "exploration",
-		Rule: "one plan = one scripted application (OpenTCP/OpenPortTCP, RegisterPort on port 0-3, optional second registration, Dial with 0-7 digipeaters or Listen/Accept, a writer goroutine with 0-24 Writes of 1-2048 bytes plus Flush/SendUI/Ping steps, a reader goroutine with buffer sizes 1 B-4 KB and think times 0-3 s, optional concurrent closer) driving the real agwpe package against the model TNC over one simulated TCP link with per-direction segmentation and latency tapes; the TNC script sends 0-150 connected-data frames of 1-700 bytes interleaved with foreign/unsolicited frames in one of three recorded regimes (paced, burst, coalesced), ends with remote disconnect, local close or TNC close, and may inject one malformed transmission or a link cut. " +
+		Rule: "one plan = one scripted application (OpenTCP/OpenPortTCP, RegisterPort on port 0-3, optional second registration, Dial with 0-7 digipeaters or Listen/Accept, a writer goroutine with 0-24 Writes of 1-2048 bytes plus Flush/SendUI/Ping steps, a reader goroutine with buffer sizes 1 B-4 KB and think times 0-3 s, optional concurrent closer) driving the real agwpe package against the model TNC over one simulated TCP link with per-direction segmentation and latency tapes; the TNC script sends 0-150 connected-data frames of 1-700 bytes interleaved with foreign/unsolicited frames in one of three recorded regimes (paced: every frame is its own TCP write at its own instant and the TNC stays at most 7 frames ahead of the reader; burst: frames back to back while the reader is slow; coalesced: several frames per TCP write), ends with remote disconnect, local close or TNC close, and may inject one malformed transmission (lying DataLen, garbage, truncated frame then close) or a link cut; with a fault the oracle only demands: nothing wrong delivered, well-formed frames from the library, no crash. " +
 			"Non-trivial: at least one connected-data payload byte crossed in either direction (returned by Read or received by the model in a 'D' frame). Distinct: distinct event-log hash (link deliveries, frames at the model, client calls and results with simulated timestamps).",
 		Real: []string{"transport/ax25/agwpe (TNC reader goroutine, demux levels, chain goroutines, Port, Conn, Listener, outstanding-frame polling)", "transport (URL, Flusher)"},
 		Stub: []string{"clock (testing/synctest)", "TCP link (sim/pipe behind the net shim, sim/simnet)", "AGWPE TNC (ref/agwtnc, written from the protocol description)", "application (scripted client goroutines)"},
@@ -37,8 +37,8 @@ func (Engine) Info(prop string) core.Info {
 			"goroutine choice between two environment events is the Go runtime's at GOMAXPROCS=1",
 			"the TNC is a model: it answers as the AGWPE description and Direwolf's documented behaviour say, nothing more",
 		},
-		QuickRuns:    40000,
-		ThoroughRuns: 900000,
+		QuickRuns:    100000,
+		ThoroughRuns: 2000000,
 		WatchdogSec:  120,
 	}
 }
